@@ -374,7 +374,7 @@ class BroadcastArrays(Contract):
 # ====================================================================== family 2
 class Joiner(Contract):
     properties = ("C09", "C17")
-    assumptions = ("B6 (column-wise joins with one index map move whole elements)", "arity 2 enumerated (thorough tier: also 3); out=None")
+    assumptions = ("B6 (column-wise joins with one index map move whole elements)", "arity 1 and 2 enumerated (thorough tier: also 3); out=None")
 
     def __init__(self, fname, seqname, has_axis):
         self.func, self.name = fname, f"numpoly.{fname}"
@@ -383,7 +383,7 @@ class Joiner(Contract):
 
     def cases(self):
         from engine.contract import deep
-        for arity in ((2, 3) if deep() else (2,)):
+        for arity in ((1, 2, 3) if deep() else (1, 2)):
             yield from self._cases(arity)
 
     def _cases(self, arity):
